@@ -95,6 +95,11 @@ def brute(A, b):
 
 def run_solver(v, case):
     from autoarray.util.fnnls import fnnls_cholesky
+    from autoarray.inversion.inversion import inversion_util as _iu
+    import autoarray as aa
+
+    def _settings(pin):
+        return aa.SettingsInversion(use_positive_only_solver=True, positive_only_uses_p_initial=pin)
 
     _, n, diag, off, rho, bkind = case
     R = np.zeros((n, n))
@@ -118,6 +123,17 @@ def run_solver(v, case):
         if not okr:
             raise AssertionError("reference minimiser fails KKT: harness error %r %r" % (A, b))
         starts = [("cold", np.zeros(0, dtype=int)), ("sign", u > 0)] + [("warm", p) for p in warm_all]
+        # the inversion-level wrapper around the routine (builds the warm start itself from the unconstrained solution)
+        for pin in (False, True):
+            cls = "reconstruction_positive_only_from:warm-start" if pin else "reconstruction_positive_only_from"
+            try:
+                sw = np.asarray(_iu.reconstruction_positive_only_from(data_vector=b.copy(), curvature_reg_matrix=A.copy(), settings=_settings(pin)), dtype=float)
+            except Exception as e:
+                v.fail(cls + ":exception", "A=%s b=%s: %r" % (A.tolist(), bt, e))
+                continue
+            okw, partsw = kkt(A, b, sw)
+            v.ok(okw and sw.shape == sref.shape and np.allclose(sw, sref, rtol=1e-6, atol=1e-6 * max(1.0, np.abs(sref).max())), cls,
+                 lambda: "A=%s b=%s -> s=%s, optimum=%s (feasible,stationary,dual)=%s" % (A.tolist(), bt, sw.tolist(), sref.tolist(), partsw))
         for kind, P in starts:
             cls = "fnnls:cold-start" if kind == "cold" else "fnnls:warm-start"
             try:
@@ -200,6 +216,65 @@ def run_inv(v, case):
                 v.ok(np.allclose(tot, total, rtol=1e-10, atol=1e-12 * max(1.0, np.abs(total).max())), "mapped_reconstructed_data:sum", name)
             except Exception as e:
                 v.fail("mapped_reconstructed_data:exception", "%s %r" % (name, e))
+    # ---- history: the same linear objects used by several successive inversions (forced-zero edge pixels must be those of
+    # each object as freshly built; nothing an earlier inversion did may change a later one)
+    fx = fix_inv.make_dataset(frame, ks, bits, psf_kind=kind, seed=seed, sub=sub, data_kind=dk)
+    aa = fx["aa"]
+    shared = [fix_inv.make_obj(fx, k, reg=r, seed=seed) for k, r in zip(kinds, regs)]
+    plans = [list(range(len(shared))), [0], list(range(len(shared)))]
+    if len(shared) > 1:
+        plans.insert(1, list(reversed(range(len(shared)))))
+    for pi, idxs in enumerate(plans):
+        objs = [shared[i] for i in idxs]
+        fresh = [fix_inv.make_obj(fx, kinds[i], reg=regs[i], seed=seed) for i in idxs]
+        st = fix_inv.settings(aa, True, positive=True, p_initial=False, force_edge=True, diag=1e-3)
+        inv = aa.Inversion(dataset=fx["ds"], linear_obj_list=objs, settings=st)
+        ref = aa.Inversion(dataset=fx["ds"], linear_obj_list=fresh, settings=fix_inv.settings(aa, True, positive=True, p_initial=False, force_edge=True, diag=1e-3))
+        try:
+            s1, s0 = np.array(inv.reconstruction, dtype=float), np.array(ref.reconstruction, dtype=float)
+            z1, z0 = sorted(int(i) for i in inv.mapper_edge_pixel_list), sorted(int(i) for i in ref.mapper_edge_pixel_list)
+            v.ok(z1 == z0, "positive-only:forced-zero-set:reused-objects", lambda: "use %d of shared objects %s: forced-zero ids %s, freshly built objects give %s" % (pi, idxs, z1, z0))
+            v.ok(s1.shape == s0.shape and np.allclose(s1, s0, rtol=1e-7, atol=1e-9 * max(1.0, np.abs(s0).max())), "reconstruction:reused-objects",
+                 lambda: "use %d of shared objects %s: reconstruction differs from freshly built objects by %s" % (pi, idxs, dom.maxdiff(s1, s0)))
+        except Exception as e:
+            v.fail("reconstruction:reused-objects:exception", "use %d of shared objects %s: %r" % (pi, idxs, e))
+    # ---- configuration: an explicit setting always wins over the configured default, whatever that default is
+    from autoconf import conf
+
+    cfg = conf.instance["general"]["inversion"]
+    saved = {k: cfg[k] for k in ("use_positive_only_solver", "positive_only_uses_p_initial", "no_regularization_add_to_curvature_diag_value")}
+    try:
+        for cpos, cpin, cdiag in ((True, True, 1e-3), (False, False, 1e-8), (True, False, 0.5)):
+            cfg["use_positive_only_solver"], cfg["positive_only_uses_p_initial"], cfg["no_regularization_add_to_curvature_diag_value"] = cpos, cpin, cdiag
+            for positive in (False, True):
+                fxc = fix_inv.make_dataset(frame, ks, bits, psf_kind=kind, seed=seed, sub=sub, data_kind=dk)
+                objs = [fix_inv.make_obj(fxc, k, reg=r, seed=seed) for k, r in zip(kinds, regs)]
+                st = fix_inv.settings(aa, False, positive=positive, p_initial=positive, force_edge=False, diag=1e-3)
+                inv = aa.Inversion(dataset=fxc["ds"], linear_obj_list=objs, settings=st)
+                A = np.array(inv.curvature_reg_matrix, dtype=float)
+                D = np.array(inv.data_vector, dtype=float)
+                sol = np.array(inv.reconstruction, dtype=float)
+                tag = "config(positive=%s,p_initial=%s,diag=%g) explicit(positive=%s,diag=1e-3)" % (cpos, cpin, cdiag, positive)
+                if positive:
+                    okk, parts = kkt(A, D, sol)
+                    v.ok(okk, "settings-vs-config:positive-only", lambda: "%s %s" % (tag, parts))
+                else:
+                    scale = max(1.0, np.abs(A).max() * max(1.0, np.abs(sol).max()), np.abs(D).max())
+                    v.ok(np.abs(A @ sol - D).max() <= 1e-7 * scale, "settings-vs-config:unconstrained",
+                         lambda: "%s: |As-D|=%g (explicit use_positive_only_solver=False must give the unconstrained solution)" % (tag, np.abs(A @ sol - D).max()))
+                Bc, widths = fix_inv.reference_B(fxc, objs)
+                Fr = fix_inv.normal_equations(Bc, fxc["data"], fxc["noise"])[1]
+                off = 0
+                for wdt, r in zip(widths, regs):
+                    if not r:
+                        Fr[range(off, off + wdt), range(off, off + wdt)] += 1e-3
+                    off += wdt
+                Fc = np.array(inv.curvature_matrix, dtype=float)
+                v.ok(Fc.shape == Fr.shape and np.allclose(Fc, Fr, rtol=1e-9, atol=1e-9 * max(1.0, np.abs(Fr).max())), "settings-vs-config:diag-value",
+                     lambda: "%s: curvature differs by %s" % (tag, dom.maxdiff(Fc, Fr)))
+    finally:
+        for k, val in saved.items():
+            cfg[k] = val
     v.nontrivial = neg_seen and sup_differs
     v.outcome = "inv:%s:neg=%s:supdiff=%s" % (dk, neg_seen, sup_differs)
 
